@@ -916,6 +916,47 @@ if not behav_failed[0]:
                              what=f"module of {j[0]} functions, {j[1]} interface, -O{j[2]}: {probs[0]['kind']} {str(probs[0].get('summary') or probs[0].get('detail') or probs[0])[:300]}")
 bstats["many_functions"] = mm
 
+# ----------------------------------------------------------------------------- behavioural: the same module loaded and linked again
+rl = {"plans": 0, "pairs": {}, "canon_failed": 0}
+rl_jobs = []
+for a in ("interp", "gen", "lazy"):
+    for b in ("interp", "gen", "lazy"):
+        for rep in range(2 if QUICK else 6):
+            third = [rng.choice(["interp", "gen", "lazy"])] if rng.chance(1, 2) else []
+            rl_jobs.append((5 + rng.below(6), [a, b] + third, rng.below(4), rng.below(100000)))
+
+
+def rl_job(j):
+    n, ifs, lv, seed = j
+    text = c16_gen.many_module(n, seed, export=False)
+    files = {"mm": path_for_text(text)}
+    plan, canon, interp = c16_gen.reload_plans(n, files["mm"], lv, ifs, c16_gen_rng(seed))
+    probs, info = behav_case(files, plan, canon, interp)
+    return j, text, files, (plan, canon, interp), probs, info
+
+
+if not behav_failed[0]:
+    with _TPE(max_workers=16) as ex:
+        for j, text, files, (plan, canon, interp), probs, info in ex.map(rl_job, rl_jobs):
+            rl["plans"] += 1
+            key = "->".join(j[1][:2])
+            rl["pairs"][key] = rl["pairs"].get(key, 0) + 1
+            rl["canon_failed"] += info["canon_failed"]
+            if probs and not behav_failed[0]:
+                behav_failed[0] = True
+                sub = lambda pl: [l.replace(files["mm"], "${mm}") for l in pl]
+                small = shrink_plan(files, plan, canon, interp, {probs[0]["kind"]})
+                p2, _ = behav_case(files, small, canon, interp)
+                if not p2:
+                    small, p2 = plan, probs
+                case = {"kind": "behav", "files": {"mm": text}, "plan": sub(small), "canon": sub(canon), "interp": sub(interp)}
+                ck.violation({"stage": "tie", "theorem_or_correspondence": "behavioural: harness/c16_behav.c, module loaded and linked again",
+                              "case": case, "problem": p2[0], "input": {"functions": j[0], "interfaces": j[1], "level": j[2]},
+                              "model_output": "gen_idempotent_addr: MIR_gen of a function that has code re-points its thunk to call_addr; results and address as before",
+                              "impl_output": p2[0], "how_to_rerun": "./check C16 --replay <this file>"},
+                             what=f"module loaded again, interfaces {'->'.join(j[1])}, -O{j[2]}: {p2[0]['kind']} {str(p2[0].get('summary') or p2[0].get('detail') or p2[0])[:300]}")
+bstats["reload"] = rl
+
 # ----------------------------------------------------------------------------- behavioural: generation-order pairs
 pr = {"cases": 0, "features": len(c16_gen.pair_features()), "victims": len(c16_gen.pair_victims()), "solo_disagrees_with_interp": []}
 pr_jobs = []
@@ -1003,7 +1044,7 @@ if BEHAV_DBG and not behav_failed[0]:
     bstats["debug_build_plans"] = nd
 
 # ----------------------------------------------------------------------------- evidence
-ck.cov["evaluations"] = struct_stats["functions"] + bstats["corpus_plans"] + bstats["gen_plans"] + bstats["open_module"]["plans"] + bstats["many_functions"]["plans"] + bstats["order_pairs"]["cases"] + bstats["api_reg_names"]["plans"]
+ck.cov["evaluations"] = struct_stats["functions"] + bstats["corpus_plans"] + bstats["gen_plans"] + bstats["open_module"]["plans"] + bstats["many_functions"]["plans"] + bstats["reload"]["plans"] + bstats["order_pairs"]["cases"] + bstats["api_reg_names"]["plans"]
 ck.cov["distinct_nontrivial"] = struct_stats["nontrivial"] + bstats["gen_plans"] + \
     (1 if bstats["corpus_regen"] else 0) * bstats["corpus_plans"]
 ck.cov["rule"] = ("structural: one evaluation = one function (mir-tests, `c2m -S` of sampled c-tests, generated modules) taken "
